@@ -24,3 +24,8 @@ r.mutants = RECV_MUTANTS['C03']
 r.required_covers = RecvUnit.required_covers + ('request sent',)
 from .sendwhole import PollRecvContract, SendMaybeContract, SendGlue
 UNITS = [s, m, ProcessFramesUnit(), r, PollRecvContract(), SendMaybeContract(), SendGlue()]
+
+
+def extra_checks(tier, seed, pool):
+    from .recvunit import bounded_histories
+    return bounded_histories('C03', tier)
